@@ -77,26 +77,20 @@ func checkDartLoopAgreement(w *World, r *Result) {
 	if len(loops) != 2 {
 		Undecided("dart: expected two struct-field loops, found %d", len(loops))
 	}
-	g0 := leadingGuards(loops[0].pkg.TypesInfo, loops[0].rs.Body, loops[0].subst)
-	g1 := leadingGuards(loops[1].pkg.TypesInfo, loops[1].rs.Body, loops[1].subst)
-	r.cond(setEq(g0, g1), "AGR-C06a", loops[1].fn.Name, "same field filter in the class and in the JSON routines", w.Pos(loops[1].rs.Pos()), "both loops skip on {"+strings.Join(g0, ", ")+"}", "the class declaration skips on {"+strings.Join(g0, ", ")+"} but the JSON routines skip on {"+strings.Join(g1, ", ")+"}: positional constructor arguments and fromJson arguments no longer align")
+	g0, _ := loopFilterSplit(loops[0].pkg.TypesInfo, loops[0].fn.Decl, loops[0].rs, loops[0].subst)
+	g1, _ := loopFilterSplit(loops[1].pkg.TypesInfo, loops[1].fn.Decl, loops[1].rs, loops[1].subst)
+	r.cond(setEq(g0, g1), "AGR-C06a", loops[1].fn.Name, "same field filter in the class and in the JSON routines", w.Pos(loops[1].rs.Pos()), "both loops keep a field exactly under {"+strings.Join(g0, ", ")+"}", "the class declaration keeps a field under {"+strings.Join(g0, ", ")+"} but the JSON routines under {"+strings.Join(g1, ", ")+"}: positional constructor arguments and fromJson arguments no longer align")
 	// appends: every append in the loops is reached for every kept field (either unconditional or in both arms of the opaque test)
 	for _, l := range loops {
 		info := l.pkg.TypesInfo
 		perTarget := map[string]int{}
 		condTargets := map[string]int{}
-		for _, a := range appendStmts(info, l.rs.Body, "") {
-			t := es(a.Lhs[0])
-			conds := 0
-			for _, c := range pathCondsNoLoop(l.fn, a) {
-				if c.exit == nil {
-					conds++
-				}
-			}
-			if conds == 0 {
-				perTarget[t]++
+		_, accs := loopFilterSplit(info, l.fn.Decl, l.rs, l.subst)
+		for _, a := range accs {
+			if len(a.own) == 0 {
+				perTarget[a.target]++
 			} else {
-				condTargets[t]++
+				condTargets[a.target]++
 			}
 		}
 		good := true
